@@ -33,7 +33,7 @@ def _validate(pid, traces, wd):
 _REPLAY = re.compile(r'^<<"REPLAY", "(.*)">>\s*$')
 _IRQ127 = {"tx": {1: 0x08, 512: 0x08}, "complete_rx": {2: 0x40, 512: 0x80}, "cad": {128: 0x04}}
 _IRQLR = {"tx": {1: 0x04, 512: 0x400}, "complete_rx": {2: 0x08, 512: 0x400}, "cad": {128: 0x100}}
-_IRQMAP = {"sx1276": _IRQ127, "lr1110": _IRQLR}
+_IRQMAP = {"sx1276": _IRQ127, "sx1272": _IRQ127, "lr1110": _IRQLR}
 
 
 def mc_behaviours(wd):
@@ -54,7 +54,7 @@ def mc_behaviours(wd):
     src = os.path.join(wd, "mcphy.ndjson")
     n = 0
     with open(src, "w") as f:
-        for chip in ("sx1262", "sx1276", "lr1110"):
+        for chip in ("sx1262", "sx1276", "sx1272", "lr1110"):
             for h in hs:
                 steps = []
                 for st in json.loads(h) + [{"call": "prep_tx", "irq": []}, {"call": "tx", "irq": [1]}]:
@@ -68,7 +68,7 @@ def mc_behaviours(wd):
     info = {"module": "MCPhy.tla", "design_states": mc["distinct"], "design_transitions": mc["generated"],
             "actions": mc["coverage"], "call_sequences_generated": len(hs), "histories_executed": n,
             "rule": "one call sequence per transition of the abstract driver + chip model (VIEW hides the history), each "
-                    "followed by prepare_for_tx + tx, on the SX1262, the SX1276 and the LR1110"}
+                    "followed by prepare_for_tx + tx, on the SX1262, the SX1276, the SX1272 and the LR1110"}
     return sorted(glob.glob(os.path.join(d, "phy.*.ndjson"))), info
 
 
@@ -127,10 +127,10 @@ def run():
                 "interrupt script, faulted, cancelled) tuples",
         "calls": calls, "depth": 3 if t else 2, "exhaustive": True, "spec_behaviours_replayed_into_impl": mcinfo,
         "samples": [[{k: e[k] for k in ("call", "pre_mode", "res", "err", "mode", "irq", "fault")} for e in core.read_events(traces[0], 4)]],
-        "explanation": "exhaustive over the stated call/outcome alphabet up to the stated depth on an emulated SX1262 (DC-DC + TCXO board), an emulated SX1276 (TCXO, PA_BOOST) and an emulated LR1110 (DC-DC, TCXO, DIO RF switch, HP PA), each also behind the LoRaWAN radio adapter (PhyRxTx calls tx / setup_rx(single|continuous) / rx_single / rx_continuous / low_power, one level deeper because the alphabet is small); the SX1272 is not covered",
+        "explanation": "exhaustive over the stated call/outcome alphabet up to the stated depth on an emulated SX1262 (DC-DC + TCXO board), an emulated SX1276 and SX1272 (TCXO, PA_BOOST) and an emulated LR1110 (DC-DC, TCXO, DIO RF switch, HP PA), each also behind the LoRaWAN radio adapter (PhyRxTx calls tx / setup_rx(single|continuous) / rx_single / rx_continuous / low_power, one level deeper because the alphabet is small); the SX1261 / STM32WL variants of the SX126x differ from the SX1262 only in PA tables and the DIO2 RF-switch option and are not recorded",
     }
     return rep.finish("model_checking", cov, [
-        "the abstract SX126x, SX1276 and LR1110 in PhyTrace.tla (which command / RegOpMode value enters which mode, what a sleeping chip accepts, what survives warm/cold sleep or only a reset, how TxDone/RxDone/Timeout/CadDone end an operation) follow the datasheets; they are the trusted part",
+        "the abstract SX126x, SX127x (SX1276 and SX1272 share the register map C14 looks at) and LR1110 in PhyTrace.tla (which command / RegOpMode value enters which mode, what a sleeping chip accepts, what survives warm/cold sleep or only a reset, how TxDone/RxDone/Timeout/CadDone end an operation) follow the datasheets; they are the trusted part",
         "a call that returns an error without a single bus event and without changing the driver's mode is a refusal, not a failed operation (clause 1 territory): chip and driver are where the previous call left them",
         "a fault is a single transient failure of one bus event; a fault on the very command that restores standby is not held against clause 4",
         "an error in continuous reception leaves the decision to the caller (documented API contract)",
